@@ -144,15 +144,19 @@ def splitDots (s : List Char) : List (List Char) :=
 def joinChars (sep : String) (parts : List (List Char)) : String :=
   joinWith sep (parts.map String.ofList)
 
-/-- the rewriting of `in` / `not in` lists on version-like variables:
-`3.8` ↦ `3.8.*` / `!=3.8.*`, `3.8.1` ↦ `==3.8.1` / `!=3.8.1`, glued by ` || ` / `, ` -/
-def versionListConstraint (isIn : Bool) (value : String) : String :=
+/-- the rewriting of `in` / `not in` lists on version-like variables, one entry per listed version:
+`3.8` ↦ `3.8.*` / `!=3.8.*`, `3.8.1` ↦ `==3.8.1` / `!=3.8.1` -/
+def versionListItems (isIn : Bool) (value : String) : List String :=
   let one (v : List Char) : String :=
     let split := splitDots v
     if split.length == 1 || split.length == 2 then
       (if isIn then "" else "!=") ++ joinChars "." (split ++ [['*']])
     else (if isIn then "==" else "!=") ++ joinChars "." split
-  joinWith (if isIn then " || " else ", ") ((splitListValue value.toList).map one)
+  (splitListValue value.toList).map one
+
+/-- … glued by ` || ` (in) / `, ` (not in) -/
+def versionListConstraint (isIn : Bool) (value : String) : String :=
+  joinWith (if isIn then " || " else ", ") (versionListItems isIn value)
 
 /-- `str.isdecimal()` on ASCII input (non-ASCII decimal digits are outside the model) -/
 def isDecimalAscii (cs : List Char) : Bool := !cs.isEmpty && cs.all isDigit
